@@ -179,6 +179,10 @@ FreshWr(t, x, v) ==
        /\ acq' = [acq EXCEPT ![t][x] = i]
        /\ UNCHANGED <<rel, scv, race>>
 
+\* would a plain write by t to x race, judged on t's CURRENT view?  For steps that delete objects in the same step as an atomic access
+\* (the access is not an acquire the deletion relies on), where PlainWr cannot be conjoined because memvars' is already defined
+PlainWrRaces(t, x) == Weak /\ (~SeesAll(t, x) \/ (HasRT(x) /\ \E u \in Threads \ {t} : ~SeesAll(t, RT(x, u))))
+
 NoDataRace == ~race
 
 \* bound on message histories (state constraint in weak configs)
